@@ -3,13 +3,14 @@
 # 1. confirms the seeded change in a scratch worktree (suite passes with it, demo fails with / passes without)
 # 2. applies it to /repo, runs the given checks, and restores /repo
 set -u
-SD=$1; shift
+SD=$(readlink -f "$1"); shift
 export GOFLAGS=-mod=mod GOPROXY=off
 WT=/tmp/wt-verify-$$
 git -C /repo worktree add -q --detach $WT HEAD || exit 2
-trap 'git -C /repo worktree remove --force $WT >/dev/null 2>&1; git -C /repo checkout -q -- . ' EXIT
-demo=$(cat $SD/demo_path.txt 2>/dev/null | tr -d '\n ')
-demofile=$(ls $SD/*_test.go | head -1)
+trap 'git -C /repo worktree remove --force $WT >/dev/null 2>&1; rm -rf /verif/.bin/alt-* /verif/.bin/mmmbbb-alt-*' EXIT
+demofile=$(ls $SD/*_test.go $SD/*_test.go.txt 2>/dev/null | head -1)
+if [ -f $SD/demo_path.txt ]; then demo=$(cat $SD/demo_path.txt | tr -d '\n ');
+else demo=$(python3 -c "import json;print(json.load(open('$SD/meta.json'))['demonstration']['repo_path'])"); fi
 pkg=./$(dirname $demo)/
 ( cd $WT && git apply $SD/patch.diff ) || { echo "PATCH DOES NOT APPLY"; exit 2; }
 ( cd $WT && go build ./actions/ ./services/ ./filter/ ./faults/ ./grpc/ ./controllers/ ) || { echo "DOES NOT BUILD"; exit 2; }
@@ -21,9 +22,8 @@ echo "--- demo with the change (expect FAIL):"
 ( cd $WT && git apply -R $SD/patch.diff )
 echo "--- demo without the change (expect ok):"
 ( cd $WT && go test -vet=off -count=1 -run 'Seeded|Demo' $pkg 2>&1 | tail -3 )
-echo "--- checks against /repo with the change applied:"
-git -C /repo apply $SD/patch.diff || { echo "PATCH DOES NOT APPLY TO /repo"; exit 2; }
+echo "--- checks against a scratch worktree of /repo HEAD with the change applied:"
+( cd $WT && rm -f $demo && git apply $SD/patch.diff ) || { echo "PATCH DOES NOT APPLY"; exit 2; }
 for p in "$@"; do
-  /verif/check $p 2>&1 | grep -E "^(VIOLATION|KNOWN|INCONCLUSIVE|NOTE|  signature|$p )" | cut -c1-230 | head -14
+  VERIF_REPO=$WT /verif/check $p 2>&1 | grep -E "^(VIOLATION|KNOWN|INCONCLUSIVE|NOTE|  signature|$p )" | cut -c1-230 | head -14
 done
-git -C /repo checkout -q -- .
